@@ -41,18 +41,20 @@ type gramStats struct {
 }
 
 type gramRun struct {
-	props    map[string]bool
-	out      *bufio.Writer
-	obs      *bufio.Writer
-	walk     *bufio.Writer
-	posl     *bufio.Writer
-	stats    gramStats
-	profiles []profile
-	line     int
-	prevRoot ast.Node
-	prevC04  ast.Node
-	seed     int64
+	props     map[string]bool
+	out       *bufio.Writer
+	obs       *bufio.Writer
+	walk      *bufio.Writer
+	posl      *bufio.Writer
+	stats     gramStats
+	profiles  []profile
+	line      int
+	prevRoot  ast.Node
+	prevC04   ast.Node
+	seed      int64
 	walkBasic bool
+	walkSeen  map[[32]byte]bool
+	prevText  string
 }
 
 func (g *gramRun) want(p string) bool { return g.props[p] }
@@ -347,7 +349,7 @@ func (g *gramRun) sentence(s *sentence) {
 	}
 	if (g.want("C17") || g.want("C19")) && g.walk != nil {
 		g.eval("C17")
-		g.writeWalk(n0)
+		g.writeWalk(n0, text0)
 	}
 	if g.want("C19") && g.posl != nil {
 		g.eval("C19")
@@ -467,7 +469,7 @@ func (g *gramRun) rawInput(dir, text string) {
 	}
 	if (g.want("C17") || g.want("C19")) && g.walk != nil {
 		g.eval("C17")
-		g.writeWalk(n0)
+		g.writeWalk(n0, text)
 	}
 	if g.want("C19") && g.posl != nil {
 		g.eval("C19")
